@@ -30,7 +30,7 @@ type shapeCase struct {
 }
 
 func runC18(e *env) error {
-	e.rep.Rule = "cases = every file emitted for (a) the repository's scenario corpus, (b) generated converters with custom functions, the three error-wrapping modes, enum actions, default constructors, update methods with every zero-value guard (also on structs Go cannot compare), field mappings and source-struct methods, (c) random structural converters; the Go AST of each emitted file is checked: no import of reflect; unsafe only when a user type lives there; every other import is a package owning a type or custom function reachable from the converter's signatures, fmt exactly when the model's plan contains an @error/@panic enum action or a wrapErrors site whose innermost element is a field or index (Gv.Emit.methodsNeeds), the wrapErrorsUsing package exactly when a wrapped error site exists; top-level declarations are only the empty converter struct, functions/methods and init (output:raw code excluded). non-trivial = the file has at least one import besides the user's package or more than one declaration; distinct = emitted text"
+	e.rep.Rule = "cases = every file emitted for (a) the repository's scenario corpus, (b) generated converters with custom functions, the three error-wrapping modes, enum actions, default constructors, update methods with every zero-value guard (also on structs Go cannot compare), field mappings and source-struct methods, byte / rune slices, (c) random structural converters; the Go AST of each emitted file is checked: no import of reflect; unsafe only when a user type lives there; every other import is a package owning a type or custom function reachable from the converter's signatures, fmt exactly when the model's plan contains an @error/@panic enum action or a wrapErrors site whose innermost element is a field or index (Gv.Emit.methodsNeeds), the wrapErrorsUsing package exactly when a wrapped error site exists; top-level declarations are only the empty converter struct, functions/methods and init (output:raw code excluded). non-trivial = the file has at least one import besides the user's package or more than one declaration; distinct = emitted text"
 	base := filepath.Join(e.scratch, "c18")
 	_ = os.MkdirAll(base, 0o755)
 	var mu sync.Mutex
@@ -91,7 +91,7 @@ func runC18(e *env) error {
 	for bi := 0; bi < nb; bi++ {
 		var fs []*famOut
 		for i := 0; i < per; i++ {
-			fs = append(fs, famExtend(r, bi*1000+i), famEnum(r, bi*1000+i), famDefault(r, bi*1000+i), famUpdateOpt(r, bi*1000+i, true), famFields(r, bi*1000+i), famMethods(r, bi*1000+i))
+			fs = append(fs, famExtend(r, bi*1000+i), famEnum(r, bi*1000+i), famDefault(r, bi*1000+i), famUpdateOpt(r, bi*1000+i, true), famFields(r, bi*1000+i), famMethods(r, bi*1000+i), famBytes(r, bi*1000+i))
 		}
 		kb := merge(fs...)
 		wg.Add(1)
